@@ -250,6 +250,11 @@ var deferArgTemplates = []struct{ src, want string }{
 	{"h = func() { probe(\"a\") }\nfunc f() {\ndefer h()\n}\nf()\nh = func() { probe(\"b\") }\nf()", "(s 61) (s 62)"},
 	{"func mk(k) { return func() { probe(k) } }\nfunc f() {\nfor i = 0; i < 3; i++ {\nhnd = mk(i)\ndefer hnd()\n}\n}\nf()", "(i 2) (i 1) (i 0)"},
 	{"func f(g) {\ndefer g(5)\n}\nf(probe)\nf(func(v) { probe(v + 1) })\nf(probe)", "(i 5) (i 6) (i 5)"},
+	// the callee of a defer may come from anywhere: a list element, a parameter that was given one, a Go identity function
+	{"hs = [func() { probe(1) }, func() { probe(2) }]\nfunc f() {\ndefer hs[0]()\ndefer hs[1]()\n}\nf()", "(i 2) (i 1)"},
+	{"hs = [func(v) { probe(v) }]\nfunc with(h) {\ndefer h(7)\nprobe(0)\n}\nwith(hs[0])", "(i 0) (i 7)"},
+	{"hs = [[func() { probe(3) }]]\nfunc f() {\ndefer hs[0][0]()\ndefer id(hs[0][0])()\n}\nf()", "(i 3) (i 3)"},
+	{"m = {\"h\": func() { probe(4) }}\nfunc f() {\ndefer m.h()\ndefer m[\"h\"]()\nfor h in [m.h] {\ndefer h()\n}\n}\nf()", "(i 4) (i 4) (i 4)"},
 	// a deferred spread call passes the elements, as the same call does without defer
 	{"func v(x...) { probe(len(x)) }\nfunc f() {\nxs = [1, 2, 3]\ndefer v(xs...)\n}\nf()", "(i 3)"},
 	{"func v(a, x...) { probe([a, len(x)]) }\nfunc f() {\nxs = [1, 2]\ndefer v(0, xs...)\n}\nf()", "(l (i 0) (i 2))"},
@@ -283,6 +288,24 @@ func streamErrors(o *Out, r *rand.Rand, n int, thorough bool) {
 		o.Sum.Hist["defer-result-template"]++
 		if res.err != nil || strings.Join(res.trace, " ") != t.want {
 			o.Fail(Failure{Oracle: "defer-leaves-result", Key: "defer-alters-result", Input: t.src, Detail: fmt.Sprintf("the invocation's result is %v (err %v), expected %s", res.trace, res.err, t.want)})
+		}
+	}
+	// a callee's stray break / continue is an error of the call (shared with the control stream)
+	for _, c := range boundaryTemplates {
+		stmt, err := parser.ParseSrc(c.src)
+		if err != nil {
+			continue
+		}
+		res := runVM(stmt, -1, 3*time.Second)
+		o.Sum.Evaluations++
+		o.Sum.Hist["boundary-template"]++
+		gotErr := ""
+		if res.err != nil {
+			gotErr = res.err.Error()
+		}
+		if res.hung || res.panicked || strings.Join(res.trace, " ") != strings.Join(c.want, " ") || (c.wantErr == "") != (gotErr == "") || !strings.Contains(gotErr, c.wantErr) {
+			o.Fail(Failure{Oracle: "runtime-error-surfaces", Key: "error-boundary:" + firstLine(c.src), Input: c.src,
+				Detail: fmt.Sprintf("expected trace %v and error %q; got trace %v and error %q", c.want, c.wantErr, res.trace, gotErr)})
 		}
 	}
 	for _, t := range deferArgTemplates {
